@@ -419,7 +419,7 @@ pub fn run(args: &[String]) -> ! {
                over-long address, invalid), well-formed and malformed denoms, success / error \
                acknowledgements and timeouts of earlier withdrawals. Non-trivial: a receive addressed \
                to a bridge account that cannot be applied, or a refund exceeding the escrow",
-        cases_quick: 800,
+        cases_quick: 1400,
         cases_thorough: 30_000,
         shards: 12,
         min_nontrivial: 0.1,
